@@ -77,6 +77,7 @@ def spectral_leaves():
     L["E_ind"] = eig_leaf(V2, [-1, 3], "f64", "ind")                         # symmetric indefinite
     L["E_tri25"] = eig_leaf([[1, 1], [0, 1]], [2, 5], "f64", "tri25")        # non-normal, positive eigenvalues
     L["E_rot"] = eig_leaf([[1, 1], [-1j, 1j]], [1 + 1j, 1 - 1j], "f64", "rot")  # real, complex-conjugate pair
+    L["E_rot12"] = eig_leaf([[1, 1], [-1j, 1j]], [1 + 2j, 1 - 2j], "f64", "rot12")  # real, arguments +-1.107 > pi/3
     L["E_herm14"] = eig_leaf([[1 + 1j, 1 + 1j], [-1, 2]], [1, 4], "c128", "herm14")  # complex Hermitian PD
     L["E_spd114"] = eig_leaf([[1, 1, 1], [-1, 0, 1], [0, -1, 1]], [1, 1, 4], "f64", "spd114")   # repeated eigenvalue
     L["E_spd241"] = eig_leaf([[1, 1, 0], [-1, 1, 0], [0, 0, 1]], [2, 4, 1], "f64", "spd241")
@@ -117,6 +118,9 @@ def plan(tier, seed):
     ops = [L[n] for n in ["E_spd13", "E_tri25", "E_herm14", "G_dg14", "G_I2", "G_sc2", "E_rot", "E_spd19"]]
     runs = [dict(seeds=seeds, operands=seeds, small=ops[:2], acts=ACTS, lvl=1, dim=9, ebound=200,
                  invariants=("Emit", "ShapeConsistent", "SpecInv"))]
+    # three Kronecker factors whose eigenvalue arguments add up to more than pi (principal branch of the whole)
+    runs.append(dict(seeds=[L["E_rot12"], L["E_rot"]], operands=[L["E_rot12"]], small=ops[:2], acts={"Kronecker", "spectral"},
+                     lvl=2, dim=8, ebound=2000, invariants=("Emit", "ShapeConsistent", "SpecInv")))
     if tier == "quick":
         runs.append(dict(seeds=[L[n] for n in ["E_spd13", "E_tri25", "E_herm14", "G_dg14", "E_rot", "E_spd35", "G_sc2"]],
                          operands=ops[:6], small=ops[:2], acts=ACTS, lvl=2, dim=6, ebound=200,
